@@ -29,6 +29,9 @@ MSA = 'merge_ska_array::MergeSkaArray'
 
 
 def run(facts, chk, tier, only=None):
+    from . import cli_e2e
+    # the subcommand through ska::main() itself (argument parser replaced by a constructed Args value): hand-over of CLI values, width dispatch
+    chk.guard('C06.cli', 'C06.cli:run0', lambda: cli_e2e.check_align(facts, chk, 'C06.cli', tier))
     filt = facts.fn(MSA + '::filter')
     ebf = ExprBuilder(filt, through_vars=False)
     ebt = ExprBuilder(filt)
